@@ -1,6 +1,7 @@
 //! Engine IN: grammar automaton for STUN buffers + single-fault operators (DESIGN.md §5).
 
 use crate::refimpl::wire;
+pub mod preempt;
 pub mod prog;
 pub mod values;
 
